@@ -470,8 +470,10 @@ func (x *Exec) sprintf(s *State, call *ssa.CallCommon, args []Val) (Val, bool) {
 		case verb == 'x' && isInt:
 			parts = append(parts, smt.App("fmt$x$"+sanitizeFlags(flags), smt.Seq(smt.Int), x.toTerm(s, bv.Inner, bv.Type)))
 		case verb == 's' && flags == "":
-			if bs, ok := bv.Type.Underlying().(*types.Basic); ok && bs.Info()&types.IsString != 0 {
+			if bs, ok := bv.Type.Underlying().(*types.Basic); ok && bs.Info()&types.IsString != 0 && x.stringMethod(bv.Type) == nil {
 				parts = append(parts, x.toTerm(s, bv.Inner, bv.Type))
+			} else if t := x.stringerTerm(s, bv); t != nil {
+				parts = append(parts, t)
 			} else {
 				parts = append(parts, smt.Fresh("fmt$s", smt.Seq(smt.Int)))
 			}
@@ -742,6 +744,16 @@ func (x *Exec) applyFieldContract(s *State, fc *FieldContract, call *ssa.CallCom
 	var as []*smt.Term
 	as = append(as, fnT)
 	vars := map[string]SVal{"self": {T: fnT, GT: call.Value.Type()}}
+	// the object whose field holds the function value
+	if u, ok := call.Value.(*ssa.UnOp); ok {
+		if fa, ok := u.X.(*ssa.FieldAddr); ok {
+			if ov, ok := s.env[fa.X]; ok {
+				if tv, ok := ov.(TermVal); ok {
+					vars["owner"] = SVal{T: tv.T, GT: fa.X.Type()}
+				}
+			}
+		}
+	}
 	for i, a := range args {
 		t := x.toTerm(s, a, call.Args[i].Type())
 		as = append(as, t)
@@ -977,4 +989,53 @@ func (x *Exec) knownFuncFacts(s *State, call *ssa.CallCommon, fnv Val, args []Va
 			s.assume(smt.Implies(smt.And(append([]*smt.Term{eq}, pre...)...), x.evalBool(env, en.E)))
 		}
 	}
+}
+
+// stringMethod finds a String() string method of t that is under contract.
+func (x *Exec) stringMethod(t types.Type) *Contract {
+	for _, tt := range []types.Type{t, types.NewPointer(t)} {
+		ms := types.NewMethodSet(tt)
+		for i := 0; i < ms.Len(); i++ {
+			f, ok := ms.At(i).Obj().(*types.Func)
+			if !ok || f.Name() != "String" {
+				continue
+			}
+			sig := f.Type().(*types.Signature)
+			if sig.Params().Len() != 0 || sig.Results().Len() != 1 {
+				continue
+			}
+			if c, ok := x.E.Contracts[f]; ok {
+				if _, isPtr := sig.Recv().Type().(*types.Pointer); isPtr != (tt != t) {
+					continue
+				}
+				return c
+			}
+		}
+	}
+	return nil
+}
+
+// stringerTerm: fmt's %s on a value whose type has a String method under a side-effect-free contract yields
+// that method's result: an uninterpreted term constrained by the contract's postconditions.
+func (x *Exec) stringerTerm(s *State, bv BoxedVal) *smt.Term {
+	c := x.stringMethod(bv.Type)
+	if c == nil || !(c.Pure || (c.AssignsSet && len(c.Assigns) == 0)) {
+		return nil
+	}
+	x.E.usedContracts[c] = true
+	recv := x.toTerm(s, bv.Inner, bv.Type)
+	r := smt.App("String$"+shortTypeName(bv.Type), smt.Seq(smt.Int), recv)
+	vars := map[string]SVal{c.ParamNm[0]: {T: recv, GT: c.Params[0].Type()}}
+	results := map[string]SVal{c.ResultNm[0]: {T: r, GT: types.Typ[types.String]}}
+	env := &SpecEnv{X: x, S: s, Old: copyHeap(s.heap), Vars: vars, Results: results, Pkg: c.SpecPkg, Fn: x.fn, CalleeView: true}
+	label := x.instrLabel(x.curInstr, "call")
+	for i, rq := range c.Requires {
+		goal := x.evalBool(env, rq.E)
+		x.addObl(s, "pre", fmt.Sprintf("%s:%s:%s", label, shortObjName(c.Obj), clauseLabel(rq, i)), goal, x.c.Props, rq.Src)
+		s.assume(goal)
+	}
+	for _, en := range c.Ensures {
+		s.assume(x.evalBool(env, en.E))
+	}
+	return r
 }
